@@ -159,3 +159,60 @@ func netByName(n string) netPrefixes {
 	}
 	panic("unknown network " + n)
 }
+
+// bech32Decode decodes a segwit address; it reports which checksum constant matched.
+func bech32Decode(addr string) (hrp string, ver byte, prog []byte, isM bool, err error) {
+	lower, upper := strings.ToLower(addr), strings.ToUpper(addr)
+	if addr != lower && addr != upper {
+		return "", 0, nil, false, errors.New("mixed case")
+	}
+	addr = lower
+	pos := strings.LastIndexByte(addr, '1')
+	if pos < 1 || pos+7 > len(addr) || len(addr) > 90 {
+		return "", 0, nil, false, errors.New("bad separator position")
+	}
+	hrp = addr[:pos]
+	var data []byte
+	for _, c := range addr[pos+1:] {
+		i := strings.IndexRune(bech32Charset, c)
+		if i < 0 {
+			return "", 0, nil, false, errors.New("bad character")
+		}
+		data = append(data, byte(i))
+	}
+	switch bech32Polymod(append(bech32HrpExpand(hrp), data...)) {
+	case bech32Const:
+	case bech32mConst:
+		isM = true
+	default:
+		return "", 0, nil, false, errors.New("bad checksum")
+	}
+	data = data[:len(data)-6]
+	if len(data) < 1 {
+		return "", 0, nil, false, errors.New("empty data")
+	}
+	ver = data[0]
+	prog, err = convertBits(data[1:], 5, 8, false)
+	if err != nil {
+		return "", 0, nil, false, err
+	}
+	if ver > 16 || len(prog) < 2 || len(prog) > 40 {
+		return "", 0, nil, false, errors.New("bad witness program")
+	}
+	if ver == 0 && len(prog) != 20 && len(prog) != 32 {
+		return "", 0, nil, false, errors.New("bad v0 program length")
+	}
+	if (ver == 0) == isM {
+		return "", 0, nil, false, errors.New("wrong checksum variant for version")
+	}
+	return hrp, ver, prog, isM, nil
+}
+
+// witnessScript is the output script of a witness program.
+func witnessScript(ver byte, prog []byte) []byte {
+	op := byte(0)
+	if ver > 0 {
+		op = 0x50 + ver
+	}
+	return append([]byte{op, byte(len(prog))}, prog...)
+}
